@@ -210,6 +210,10 @@ def run_property(prop, tier, keep=False, only=None, jobs=16, write_evidence=True
     else:
         code = EXIT_OK
     nproof = sum(1 for u in units_report if u["status"] == "success")
+    if os.environ.get("VERIF_VERBOSE", "1") != "0":
+        for u in units_report:
+            print("UNIT %-60s %-9s %-9s checks=%-6s t=%6.1fs %s" % (u["unit"], u["engine"], u["status"], u.get("checks", 0),
+                                                                  u.get("time_s", 0.0), (u.get("note") or "")[:100]))
     print("RESULT property=%s tier=%s units=%d ok=%d violations=%d known=%d undecided=%d wall=%.0fs exit=%d"
           % (prop, tier, len(units_report), nproof, len(violations), len(set(known)), len(undecided), wall, code))
     return code
